@@ -83,7 +83,7 @@ def handleInvalidV : Val → Except PyErr Val
 theorem handleInvalid_run (x : Val) : runKw (cxAt parseInt 4) _handleInvalid_ast [x] [] = handleInvalidV x := by
   cases x <;> simp [_handleInvalid_ast, runKw, bindArgs, execL, execS, execH, eval, evalList, cxAt_builtin, builtin, getAttr,
     pyIsSubclass, Val.truthy, truthy, catches, errIsA, excOf_TypeError, callValue, raiseOf, handleInvalidV, Lit.toPy, List.lookup,
-    Env.set, aliasOK, Val.mutable, resultOf]
+    assocSet, aliasOK, Val.mutable, resultOf]
 
 theorem handleInvalidV_ofInv (inv : Inv) : handleInvalidV (ofInv inv) = liftPy (handleInvalid inv) := by
   cases inv <;> rfl
@@ -227,7 +227,7 @@ macro "py_eval" : tactic => `(tactic| simp [
   pyEqV_none_str, pyEqV_int_str, pyEqV_bool_str, pyEqV_tokens_str, pyEqV_ancestor_str, pyEqV_opaque_str, pyEqV_str_none,
   pyEqV_int_none, pyEqV_bool_none, pyEqV_tokens_none, pyEqV_ancestor_none, pyEqV_opaque_none, Lit.toPy, Val.truthy, truthy, builtin, catches, errIsA, excOf_TypeError, excOf_ValueError, callMethod, hasLower,
   List.lookup, cxAt_builtin, cxAt_handleInvalid_5, cxAt_handleInvalid_6, cxAt_handleInvalid_7, handleInvalid_run,
-  Env.set, aliasOK, Val.mutable, resultOf])
+  assocSet, aliasOK, Val.mutable, resultOf])
 /-- `py_eval` with further facts (case hypotheses, the hand model's definitions). -/
 macro "py_eval" "[" ts:Lean.Parser.Tactic.simpLemma,* "]" : tactic => `(tactic| simp [$ts,*,
   bindArgs, execL, execS, execH, eval, evalList, toTuple, pyCompare, compareB, bnot, pyIn_py_tuple, pyIn_ofMembers, pyEq, pyIs, pyOrd, numOf, isText,
@@ -235,6 +235,6 @@ macro "py_eval" "[" ts:Lean.Parser.Tactic.simpLemma,* "]" : tactic => `(tactic| 
   pyEqV_none_str, pyEqV_int_str, pyEqV_bool_str, pyEqV_tokens_str, pyEqV_ancestor_str, pyEqV_opaque_str, pyEqV_str_none,
   pyEqV_int_none, pyEqV_bool_none, pyEqV_tokens_none, pyEqV_ancestor_none, pyEqV_opaque_none, Lit.toPy, Val.truthy, truthy, builtin, catches, errIsA, excOf_TypeError, excOf_ValueError, callMethod, hasLower,
   List.lookup, cxAt_builtin, cxAt_handleInvalid_5, cxAt_handleInvalid_6, cxAt_handleInvalid_7, handleInvalid_run,
-  Env.set, aliasOK, Val.mutable, resultOf])
+  assocSet, aliasOK, Val.mutable, resultOf])
 
 end AHP.PyAst
